@@ -160,6 +160,8 @@ type vhReader struct {
 	seg     bool  // fork over every chunk size (all segmentations); else one chunk
 	coarse  bool  // with seg: only chunk sizes {1, half of what fits, all that fits}
 	budget  int   // with coarse: number of reads that may still fork (then: all that fits)
+	bytewise bool // one byte per Read: every boundary is a cut point
+	cutAt   int   // > 0: the first Read returns at most this many bytes, the rest follows
 	eofWith bool  // return io.EOF / endErr together with the last bytes
 	reads   int
 	nread   int
@@ -183,7 +185,13 @@ func (r *vhReader) Read(p []byte) (int, error) {
 		maxn = len(p)
 	}
 	n := maxn
-	if r.seg && maxn > 1 {
+	if r.cutAt > 0 && r.pos < r.cutAt {
+		if r.cutAt-r.pos < n {
+			n = r.cutAt - r.pos
+		}
+	} else if r.bytewise {
+		n = 1
+	} else if r.seg && maxn > 1 {
 		if r.coarse {
 			if r.budget > 0 {
 				r.budget--
